@@ -4,7 +4,7 @@ import itertools
 from . import dast, refsem
 
 FOCI = ["exclude-crossed-derived", "preamble-in-crossing", "exclude+preamble", "implied-early-window", "weighted-exclusion",
-        "leftover", "parallel-start"]
+        "leftover", "parallel-start", "derived-of-derived-crossed"]
 LEVEL_POOL = ["x", "y", "z", "w"]
 FACTOR_NAMES = ["A", "B", "C", "E"]
 
@@ -42,7 +42,17 @@ def swarm(rng, tier="quick"):
         "focus": rng.choice([None] * 6 + FOCI),
         # constraint targets prefer crossed and derived factors (uniform choice mostly hits uncrossed basic factors)
         "target_bias": rng.random() < 0.6,
+        # half of the runs stay small (few uncrossed factors, short crossings): the exhaustive oracles skip what they
+        # cannot enumerate, and a design that is skipped finds nothing
+        "small": rng.random() < 0.5,
+        "ragged_names": rng.random() < 0.35,
+        "numeric_names": rng.choice([None] * 6 + ["int", "int", "float"]),
+        "numeric_factor": rng.choice([0, 0, 1]),
     }
+    if cfg["small"] and not thorough:
+        cfg["max_basic"] = min(cfg["max_basic"], 2)
+        cfg["max_cross"] = 4
+        cfg["max_T"] = 6
     if not cfg["kinds"]:
         cfg["kinds"] = [rng.choice(dast.ALL_CONSTRAINT_KINDS)]
     return cfg
@@ -50,10 +60,16 @@ def swarm(rng, tier="quick"):
 
 def _gen_basic(rng, cfg, i, used_names):
     n = rng.randint(2, cfg["max_levels"])
-    if cfg["shared_names"]:
+    if cfg.get("numeric_names") and i == cfg.get("numeric_factor", 0):
+        # level names need not be strings: numbers are as common (Factor("number", [0, 1, 2])), and 0 / 0.0 are falsy
+        names = {"int": [0, 1, 2, 3], "float": [0.0, 0.5, 1.5, 2.5], "mixed": [0, 1.5, 2, 3.5]}[cfg["numeric_names"]][:n]
+    elif cfg["shared_names"]:
         names = LEVEL_POOL[:n]
     else:
         names = ["%s%d" % (FACTOR_NAMES[i].lower(), j) for j in range(n)]
+        if cfg.get("ragged_names"):
+            # level names of different printed lengths (text outputs must not depend on equal-width values)
+            names = [nm + "_" + "longer"[:1 + (j * 3 + i * 2) % 6] if (j + i) % 2 == 0 else nm for j, nm in enumerate(names)]
     levels = []
     for nm in names:
         w = 1
@@ -82,7 +98,7 @@ def _gen_window(rng, cfg):
     return {"kind": "window", "width": width, "stride": stride, "start": start}
 
 
-def _gen_derived(rng, cfg, factors, j):
+def _gen_derived(rng, cfg, factors, j, force_args=None):
     """Returns a derived-factor AST node with tables that are total and unambiguous over the broad universe,
     unless cfg['bad_tables'] asks for a deliberately broken one."""
     win = _gen_window(rng, cfg)
@@ -92,7 +108,7 @@ def _gen_derived(rng, cfg, factors, j):
     nargs = 1 if len(cands) == 1 else rng.choice([1, 2, 2])
     if cfg.get("sm_single_arg_transition") and win["kind"] == "transition":
         nargs = 1
-    args = rng.sample(cands, nargs)
+    args = rng.sample(cands, nargs) if force_args is None else list(force_args)
     nlev = rng.choice([2, 2, 3])
     f = {"id": "d%d" % j, "kind": "derived", "name": "D%d" % j, "window": win,
          "args": [a["id"] for a in args],
@@ -228,6 +244,22 @@ def _gen_constraint(rng, cfg, factors, design_ids, crossing_ids, approxT, cid, k
     return c
 
 
+def sibling_constraint(rng, cons, allowed_kinds=None, p=0.12):
+    """With probability p: a second constraint that coincides with an existing run-length/count constraint in everything
+    but its kind (same k, same target) - near-duplicates are where equality, de-duplication and caching go wrong."""
+    runs = [c for c in cons if c["kind"] in dast.RUN_KINDS]
+    if not runs or rng.random() >= p:
+        return None
+    c = rng.choice(runs)
+    kinds = [k for k in dast.RUN_KINDS if k != c["kind"] and (allowed_kinds is None or k in allowed_kinds)]
+    if not kinds:
+        return None
+    s_ = dast.clone(c)
+    s_["kind"] = rng.choice(kinds)
+    s_["id"] = str(c.get("id", "c")) + "s"
+    return s_
+
+
 def _weights(f):
     if f["kind"] == "basic":
         return [w for _, w in f["levels"]]
@@ -269,6 +301,21 @@ def gen_cross_design(rng, cfg, tier="quick", constraint_kinds=None, single=True)
             factors.append(d)
             forced_cross.append(d["id"])
             j += 1
+    if focus == "derived-of-derived-crossed":
+        # a crossed within-trial factor D whose argument A is itself a within-trial factor that is NOT crossed and that reads
+        # a crossed and an uncrossed basic factor: D's level depends on the crossing instance and on the source combination
+        basics_ = [f for f in factors if f["kind"] == "basic"]
+        if len(basics_) >= 2:
+            a_ = _gen_derived(rng, only(win_within=True), basics_[:2], j, force_args=[basics_[0], basics_[1]])
+            if a_ is not None:
+                factors.append(a_)
+                forced_out.append(a_["id"])
+                j += 1
+                d_ = _gen_derived(rng, only(win_within=True), factors, j, force_args=[a_] + ([basics_[rng.randrange(2)]] if rng.random() < 0.3 else []))
+                if d_ is not None:
+                    factors.append(d_)
+                    forced_cross.extend([d_["id"], basics_[0]["id"]])
+                    j += 1
     if focus == "implied-early-window":
         d = _gen_derived(rng, only(win_window=True), [f for f in factors if f["kind"] == "basic"], j)
         if d is not None:
@@ -302,7 +349,7 @@ def gen_cross_design(rng, cfg, tier="quick", constraint_kinds=None, single=True)
         order = [f for f in order if f["id"] not in crossing]
         for f in order:
             ws = sum(_weights(f))
-            if size * ws <= cfg["max_cross"] and (not crossing or rng.random() < 0.6):
+            if size * ws <= cfg["max_cross"] and (not crossing or rng.random() < (0.85 if cfg.get("small") else 0.6)):
                 crossing.append(f["id"])
                 size *= ws
         if not crossing and order:
@@ -321,6 +368,9 @@ def gen_cross_design(rng, cfg, tier="quick", constraint_kinds=None, single=True)
         c = _gen_constraint(rng, cfg, [f for f in factors if f["id"] not in forced_out], [i_ for i_ in design_ids if i_ not in forced_out], crossing, approxT, i, constraint_kinds)
         if c is not None:
             cons.append(c)
+    sib = sibling_constraint(rng, cons, constraint_kinds)
+    if sib is not None:
+        cons.append(sib)
     rcc = not (cfg["rcc_false"] and rng.random() < 0.7)
     if any(c["kind"] == "exclude" for c in cons) and rng.random() < 0.6:
         rcc = False
